@@ -29,6 +29,7 @@ namespace mfuse
 		int yylex() override;
 		int yylex(Parser::semantic_type* const lval, Parser::location_type* const loc);
 		void yylexerror(const char* msg);
+		[[noreturn]] void yylexfatal(const char* msg);
 		int get_prev_lex();
 		uint32_t get_braces_count() const;
 
